@@ -22,6 +22,22 @@ def unevenGo (n : Nat) : Nat → Nat → List (Float × Float)
     | none => []
     | some sec => (sec.t0, sec.t1) :: unevenGo n f r.t1
 
+/-- a varied walk: the generated `vary_step` with the next distance (a finite list, cycled or used up), then the generated
+    `even_walk_next`; `k` is the number of distances asked for so far -/
+def varyGo (w1 w2 w3 w4 : V2 Float) (d : T3 (V2 Float) (V2 Float) (V2 Float)) (err : Float) (vs : List Float) (cyc : Bool) :
+    Nat → Nat → Float → Float → V2 Float → Float → List (Float × Float)
+  | 0, _, _, _, _, _ => []
+  | n + 1, k, dist, lastT, lastP, lastInc =>
+    let nextD : Option Float :=
+      if vs.isEmpty then none else if cyc then some (vs.getD (k % vs.length) 0.0) else if k < vs.length then some (vs.getD k 0.0) else none
+    let u : Float × Float := match nextD with
+      | some x => let v := vary_step x dist lastInc; (v.t1.t0, v.t1.t1)
+      | none => (dist, lastInc)
+    let r := even_walk_next w1 w2 w3 w4 d u.1 err lastT lastP u.2
+    match r.t0 with
+    | none => []
+    | some sec => (sec.t0, sec.t1) :: varyGo w1 w2 w3 w4 d err vs cyc n (k + 1) u.1 r.t1.t0 r.t1.t1 r.t1.t2
+
 def cmpSections (name : String) (model : List (Float × Float)) (impl : List FV) (cap : Nat) : List Out :=
   let implPairs := (chunk 2 impl).map (fun p => ((p.getD 0 default).f, (p.getD 1 default).f))
   let m := model.take cap
@@ -40,6 +56,17 @@ def handle (op : String) (ins outs : List String) : List Out :=
     let st := walk_curve_evenly (p 0) (p 1) (p 2) (p 3) (iv.getD 8 default).f (iv.getD 9 default).f
     let model := evenGo (p 0) (p 1) (p 2) (p 3) st.derivative st.distance st.max_error (cap + 1) st.last_t st.last_point st.last_increment
     cmpSections "walk_curve_evenly" model ((outs.drop 1).map (fun s => ⟨parseHex s⟩)) cap
+  | "vary" =>
+    -- ins: w (8) distance max_error #cyc #k v1..vk #cap; outs: n (a b)*
+    let iv : List FV := (ins.take 10).map (fun s => ⟨parseHex s⟩)
+    let cyc := parseNat (ins.getD 10 "0") == 1
+    let k := parseNat (ins.getD 11 "0")
+    let vs : List Float := ((ins.drop 12).take k).map (fun s => (⟨parseHex s⟩ : FV).f)
+    let cap := parseNat (ins.getD (12 + k) "0")
+    let p (i : Nat) : V2 Float := ⟨(iv.getD (2*i) default).f, (iv.getD (2*i+1) default).f⟩
+    let st := walk_curve_evenly (p 0) (p 1) (p 2) (p 3) (iv.getD 8 default).f (iv.getD 9 default).f
+    let model := varyGo (p 0) (p 1) (p 2) (p 3) st.derivative st.max_error vs cyc (cap + 1) 0 st.distance st.last_t st.last_point st.last_increment
+    cmpSections "walk_curve_evenly.vary_by" model ((outs.drop 1).map (fun s => ⟨parseHex s⟩)) cap
   | "uneven" =>
     let n := parseNat (ins.getD 0 "0")
     cmpSections "walk_curve_unevenly" (unevenGo n (n + 2) 0) ((outs.drop 1).map (fun s => ⟨parseHex s⟩)) (n + 2)
